@@ -10,6 +10,7 @@ Verdict:     TLC judges every event with SnapAlgTrace.tla (the operators of Snap
              COMPLAINT lines of level "V" are violations of the property, level "D" is drift.
 """
 import concurrent.futures as cf
+import resource
 import hashlib
 import json
 import os
@@ -32,6 +33,17 @@ def _uniq(prefix):
         return os.path.join(core.WORK, "%s-%d-%d" % (prefix, os.getpid(), _ctr[0]))
 
 
+def _limit():
+    # a hostile length field must not be able to take the machine down: 8 GiB of address space
+    resource.setrlimit(resource.RLIMIT_AS, (8 << 30, 8 << 30))
+
+
+def _crash_info(out, rc):
+    cur = out + ".cur"
+    case = open(cur).read() if os.path.exists(cur) else "{}"
+    return {"hang": None, "crash": case, "rc": rc, "cases": 0, "wall": 0.0}
+
+
 def build():
     return os.path.join(core.build_harness(["vh-snapalg"]), "vh-snapalg")
 
@@ -39,19 +51,31 @@ def build():
 def laws(fam, workers=2, timeout=900):
     """Model-check the laws of a family. Returns TlcResult."""
     return core.run_tlc("MC_SnapAlg.tla", "MC_%s_laws.cfg" % fam, cwd=SPEC, workers=workers, timeout=timeout,
-                        heap="4g", stack="1g", coverage=False, metadir=_uniq("tlc-laws"))
+                        heap="2g", stack="1g", coverage=False, metadir=_uniq("tlc-laws"))
 
 
 def export_and_replay(binp, fam, out, timeout=900):
+    """tlc (export cfg) | vh-snapalg run <out>; one retry when TLC itself fails to start
+    (seen once under heavy machine load: exit 150 before the first state)."""
+    try:
+        return _export_and_replay(binp, fam, out, timeout)
+    except core.ToolError as e:
+        core.log("[exp] retry after: %s" % e)
+        time.sleep(3)
+        return _export_and_replay(binp, fam, out, timeout)
+
+
+def _export_and_replay(binp, fam, out, timeout=900):
     """tlc (export cfg) | vh-snapalg run <out>. Returns number of cases executed."""
     md = _uniq("tlc-exp")
     cmd = core.tlc_cmd("MC_SnapAlg.tla", "MC_%s_exp.cfg" % fam, workers=1, metadir=md,
-                       java_opts=["-Xmx4g", "-Xss1g"])
+                       java_opts=["-Xmx2g", "-Xss1g"])
     e = dict(os.environ)
     e.pop("JAVA_TOOL_OPTIONS", None)
     t0 = time.time()
     p1 = subprocess.Popen(cmd, cwd=SPEC, env=e, stdout=subprocess.PIPE, stderr=subprocess.STDOUT)
-    p2 = subprocess.Popen([binp, "run", out], cwd=core.VERIF, stdin=p1.stdout, stdout=subprocess.PIPE, text=True, env=e)
+    p2 = subprocess.Popen([binp, "run", out], cwd=core.VERIF, stdin=p1.stdout, stdout=subprocess.PIPE, text=True, env=e,
+                          preexec_fn=_limit)
     p1.stdout.close()
     try:
         out2, _ = p2.communicate(timeout=timeout)
@@ -66,6 +90,8 @@ def export_and_replay(binp, fam, out, timeout=900):
     if hang:
         return {"hang": hang.group(1), "cases": 0, "wall": time.time() - t0}
     m = re.search(r"CASES (\d+)", out2)
+    if p2.returncode not in (0, 97) and (p2.returncode < 0 or p2.returncode >= 128 or p2.returncode == 101):
+        return _crash_info(out, p2.returncode)
     if p1.returncode != 0 or p2.returncode != 0 or not m:
         raise core.ToolError("export pipe failed for %s: tlc rc=%s harness rc=%s out=%s" % (fam, p1.returncode, p2.returncode, out2[-500:]))
     core.log("[exp] %s: %s cases in %.1fs" % (fam, m.group(1), time.time() - t0))
@@ -73,10 +99,17 @@ def export_and_replay(binp, fam, out, timeout=900):
 
 
 def drive(binp, fam, seed, n, out, timeout=900):
-    rc, o = core.run_harness([binp, "drive", fam, str(seed), str(n), out], timeout=timeout)
+    try:
+        r = subprocess.run([binp, "drive", fam, str(seed), str(n), out], stdout=subprocess.PIPE, stderr=subprocess.PIPE,
+                           text=True, timeout=timeout, cwd=core.VERIF, preexec_fn=_limit)
+    except subprocess.TimeoutExpired:
+        raise core.ToolError("harness drive timed out")
+    rc, o = r.returncode, r.stdout
     hang = re.search(r"^HANG (.*)$", o, re.M)
     if hang:
         return {"hang": hang.group(1), "cases": 0}
+    if rc < 0 or rc >= 128 or rc == 101:
+        return _crash_info(out, rc)
     if rc != 0:
         raise core.ToolError("harness drive failed rc=%s: %s" % (rc, o[-500:]))
     return {"hang": None, "cases": n}
@@ -116,7 +149,7 @@ def judge_file(path, timeout=1800):
     if n == 0:
         return {"events": 0, "complaints": [], "rejected": False, "path": path, "wall": 0.0}
     e = {"TRACE": os.path.abspath(path)}
-    res = core.run_tlc("SnapAlgTrace.tla", "SnapAlgTrace.cfg", cwd=SPEC, workers=1, timeout=timeout, env=e, heap="6g",
+    res = core.run_tlc("SnapAlgTrace.tla", "SnapAlgTrace.cfg", cwd=SPEC, workers=1, timeout=timeout, env=e, heap="4g",
                        stack="1g", deque=True, metadir=_uniq("tlc-trace"))
     comps = []
     for ln in res.out.splitlines():
@@ -247,6 +280,14 @@ class Run:
             case = {"raw": info}
         self.ctx.report("hang:%s" % label, "a library call did not return within the watchdog limit (%s)" % label, case)
 
+    def crash(self, info, label):
+        try:
+            case = json.loads(info["crash"])
+        except Exception:
+            case = {"raw": info["crash"]}
+        self.ctx.report("process-abort:%s" % label,
+                        "the process running the library aborted (exit %s: allocation failure, abort or double panic) in %s" % (info["rc"], label), case)
+
     def finish(self, rule):
         ctx = self.ctx
         for text, n in sorted(self.drift.items()):
@@ -260,11 +301,7 @@ class Run:
         ctx.coverage["rule"] = rule
 
 
-def do_laws(ctx, fams, workers=2, par=2):
-    """Model-check the laws of several families in parallel. A violated law means the design
-    of the spec is broken: reported as violation as well."""
-    with cf.ThreadPoolExecutor(max_workers=par) as ex:
-        results = list(ex.map(lambda f: (f, laws(f, workers=workers)), fams))
+def _account_laws(ctx, results):
     for fam, res in results:
         ctx.add_states(res, "laws of family %s (MC_%s_laws.cfg)" % (fam, fam))
         if not res.ok:
@@ -273,46 +310,59 @@ def do_laws(ctx, fams, workers=2, par=2):
                            {"tlc_output_tail": res.out[-3000:]})
             else:
                 raise core.ToolError("TLC failed on the laws of %s: %s" % (fam, res.error))
-    return results
 
 
-def do_direction_a(ctx, run, binp, fams, par=4, split_parts=4):
-    outs = {}
-
-    def one(f):
-        out = os.path.join(ctx.workdir, "A-%s.ndjson" % f)
-        return f, out, export_and_replay(binp, f, out)
-
-    with cf.ThreadPoolExecutor(max_workers=min(par, len(fams))) as ex:
-        results = list(ex.map(one, fams))
-    paths = []
-    for f, out, info in results:
-        if info["hang"]:
-            run.hang(info["hang"], "direction A, family " + f)
-            continue
-        ctx.add_run("direction A: family %s replayed on the real code" % f, cases=info["cases"], wall_s=round(info["wall"], 1))
-        outs[f] = out
-        for p in split(out, split_parts):
-            paths.append((f, p))
-    res = judge([p for _, p in paths], par=par)
-    for (f, _), r in zip(paths, res):
-        run.account([r], "A:" + f)
-    return outs
-
-
-def do_direction_b(ctx, run, binp, fam, n, par=4, split_parts=4, seeds=1):
-    paths = []
-    for s in range(seeds):
-        out = os.path.join(ctx.workdir, "B-%s-%d.ndjson" % (fam, s))
-        info = drive(binp, fam, ctx.seed * 1000 + s, n, out)
-        if info["hang"]:
-            run.hang(info["hang"], "direction B, driver " + fam)
-            continue
-        ctx.add_run("direction B: %d seeded random %s cases of real size" % (n, fam), seed=ctx.seed * 1000 + s)
-        paths += split(out, split_parts)
-    res = judge(paths, par=par)
-    run.account(res, "B:" + fam)
-    return paths
+def run_all(ctx, run, binp, law_fams, a_fams, b_fam, nb, seeds=1, par=4, law_workers=2):
+    """Stage 1 (in parallel): the laws of the families are model-checked, the families are exported
+    and replayed on the real code, the random driver records its traces. Stage 2 (in parallel):
+    every recorded trace is judged by SnapAlgTrace.tla. Returns the list of direction-B traces."""
+    jobs = []
+    with cf.ThreadPoolExecutor(max_workers=par) as ex:
+        for f in law_fams:
+            jobs.append(("law", f, ex.submit(laws, f, law_workers)))
+        for f in a_fams:
+            out = os.path.join(ctx.workdir, "A-%s.ndjson" % f)
+            jobs.append(("A", (f, out), ex.submit(export_and_replay, binp, f, out)))
+        for s in range(seeds):
+            out = os.path.join(ctx.workdir, "B-%s-%d.ndjson" % (b_fam, s))
+            jobs.append(("B", (s, out), ex.submit(drive, binp, b_fam, ctx.seed * 1000 + s, nb, out)))
+        done = [(k, a, fu.result()) for k, a, fu in jobs]
+    _account_laws(ctx, [(a, r) for k, a, r in done if k == "law"])
+    files = []          # (label, path)
+    b_paths = []
+    for k, a, info in done:
+        if k == "A":
+            f, out = a
+            if info.get("crash"):
+                run.crash(info, "direction A, family " + f)
+                continue
+            if info["hang"]:
+                run.hang(info["hang"], "direction A, family " + f)
+                continue
+            ctx.add_run("direction A: family %s replayed on the real code" % f, cases=info["cases"], wall_s=round(info["wall"], 1))
+            files.append(("A:" + f, out))
+        elif k == "B":
+            sd, out = a
+            if info.get("crash"):
+                run.crash(info, "direction B, driver " + b_fam)
+                continue
+            if info["hang"]:
+                run.hang(info["hang"], "direction B, driver " + b_fam)
+                continue
+            ctx.add_run("direction B: %d seeded random %s cases of real size" % (nb, b_fam), seed=ctx.seed * 1000 + sd)
+            files.append(("B:" + b_fam, out))
+            b_paths.append(out)
+    # parts in proportion to the size of the files
+    total = sum(os.path.getsize(p) for _, p in files) or 1
+    parts = []
+    for label, p in files:
+        k = max(1, round(par * os.path.getsize(p) / total))
+        for q in split(p, k):
+            parts.append((label, q))
+    res = judge([p for _, p in parts], par=par)
+    for (label, _), r in zip(parts, res):
+        run.account([r], label)
+    return b_paths
 
 
 def binding_selftest(ctx, path, mutate):
@@ -335,11 +385,15 @@ def binding_selftest(ctx, path, mutate):
 def replay(ctx, path):
     binp = build()
     out = os.path.join(ctx.workdir, "replay.ndjson")
-    rc, o = core.run_harness([binp, "one", path, out], timeout=300)
+    r = subprocess.run([binp, "one", path, out], stdout=subprocess.PIPE, stderr=subprocess.PIPE, text=True, timeout=300,
+                       cwd=core.VERIF, preexec_fn=_limit)
+    rc, o = r.returncode, r.stdout
     run = Run(ctx)
     hang = re.search(r"^HANG (.*)$", o, re.M)
     if hang:
         run.hang(hang.group(1), "replay")
+    elif rc < 0 or rc >= 128 or rc == 101:
+        run.crash(_crash_info(out, rc), "replay")
     else:
         if rc != 0:
             raise core.ToolError("harness failed on the replay file: %s" % o[-300:])
